@@ -114,7 +114,21 @@ def run(ctx, rep):
                     continue
                 arg = (n.get("args") or [None])[0]
                 ok = False
-                for sub in walk(arg):
+                # a count kept in a named local first (`const size_t n = worker->num_encoded_points();`):
+                # judge the initialiser(s) of that local
+                srcs = [arg]
+                a0 = arg
+                while isinstance(a0, dict) and a0.get("k") in ("icast", "cast", "copy"):
+                    a0 = a0.get("e")
+                if isinstance(a0, dict) and a0.get("k") == "var" and "d" in a0:
+                    for b2, ev2 in fn.events():
+                        if ev2["k"] == "decl" and (ev2.get("var") or {}).get("d") == a0["d"] and isinstance(ev2.get("e"), dict):
+                            srcs.append(ev2["e"])
+                    for n2, b2, rk2, ev2 in fn.nodes():
+                        if n2.get("k") == "bin" and n2.get("op") == "=" and isinstance(n2.get("l"), dict) and \
+                                n2["l"].get("k") == "var" and n2["l"].get("d") == a0["d"]:
+                            srcs.append(n2.get("r"))
+                for sub in (x for s_ in srcs for x in walk(s_)):
                     if sub.get("k") == "call" and call_base(sub).endswith("::" + getter):
                         rv = root_var(sub.get("obj"))
                         if any(same_obj(rv, w) for w, _ in workers):
@@ -329,6 +343,21 @@ def sectorclose(ctx, rep):
         "is dominated, inside the per-vertex loop, by a condition that consults the connectivity (a CornerTable "
         "predicate on the vertex or a comparison of CornerIndex values), not only point ids / counters")
     n = 0
+
+    def topo_evidence(fn, tree, depth=0):
+        """does the selecting expression consult the connectivity? (named bool locals are expanded)"""
+        for x in walk(tree):
+            if x.get("k") == "call" and strip_targs(x.get("fn") or "").startswith(
+                    ("draco::CornerTable::", "draco::MeshAttributeCornerTable::")) and (x.get("ret") or "") == "bool":
+                return True
+            if x.get("k") in ("var", "field") and "CornerIndex_tag" in (x.get("t") or ""):
+                return True
+            if x.get("k") == "var" and "d" in x and depth < 2 and (x.get("t") or "").replace("const ", "") == "bool":
+                for b2, ev2 in fn.events():
+                    if ev2["k"] == "decl" and (ev2.get("var") or {}).get("d") == x["d"] and \
+                            isinstance(ev2.get("e"), dict) and topo_evidence(fn, ev2["e"], depth + 1):
+                        return True
+        return False
     for fn in F.need("draco::MeshEdgebreakerEncoder::ComputeNumberOfEncodedPoints"):
         loops = fn.loops()
         for blk, rk, tree, ev in fn.roots():
@@ -340,41 +369,43 @@ def sectorclose(ctx, rep):
                 r = nd.get("r")
                 while isinstance(r, dict) and r.get("k") in ("icast", "cast"):
                     r = r.get("e")
-                if not (isinstance(r, dict) and r.get("k") == "bin" and r.get("op") == "-" and
-                        isinstance(r.get("r"), dict) and r["r"].get("v") == 1):
-                    continue
+
+                def minus_one(t):
+                    while isinstance(t, dict) and t.get("k") in ("icast", "cast"):
+                        t = t.get("e")
+                    return isinstance(t, dict) and t.get("k") == "bin" and t.get("op") == "-" and \
+                        isinstance(t.get("r"), dict) and t["r"].get("v") == 1
+                selectors = []          # expressions that choose the `- 1` form
                 b = nd.get("b", blk.id)
-                inner = sorted([l for l in loops if b in l[1]], key=lambda l: len(l[1]))
-                body = inner[0][1] if inner else set(fn.blocks)
-                topo = None
-                edges = [(cb, oc, cond) for cb, oc, cond in dominating_edges(fn, b)
-                         if cb.id in body and not isinstance(oc, tuple)]
-                # the innermost statement that decides between the two updates: the dominating condition
-                # blocks of the closest if-statement (an `a && b` condition is several blocks, one tloc)
-                doms = fn.doms().get(b, set())
-                edges.sort(key=lambda e_: len(fn.doms().get(e_[0].id, ())), reverse=True)
-                near = edges[:1]
-                grew = True
-                while grew:           # short-circuit operands of the same condition (`a && b` is two blocks)
-                    grew = False
-                    ids = {e_[0].id for e_ in near}
-                    for e_ in edges:
-                        if e_[0].id not in ids and (e_[0].term or "").startswith("BinaryOperator") and \
-                                set(fn.succs(e_[0].id)) & ids:
-                            near.append(e_)
-                            grew = True
-                for cb, oc, cond in near:
-                    for x in walk(cond):
-                        if x.get("k") == "call" and strip_targs(x.get("fn") or "").startswith(
-                                ("draco::CornerTable::", "draco::MeshAttributeCornerTable::")) and \
-                                (x.get("ret") or "") == "bool":
-                            topo = "`%s` at %s" % (cb.condsrc, fn.site(cb.tloc or ""))
-                        if x.get("k") in ("var", "field") and "CornerIndex_tag" in (x.get("t") or ""):
-                            topo = topo or "`%s` at %s" % (cb.condsrc, fn.site(cb.tloc or ""))
+                if minus_one(r):
+                    inner = sorted([l for l in loops if b in l[1]], key=lambda l: len(l[1]))
+                    body = inner[0][1] if inner else set(fn.blocks)
+                    edges = [(cb, oc, cond) for cb, oc, cond in dominating_edges(fn, b)
+                             if cb.id in body and not isinstance(oc, tuple)]
+                    edges.sort(key=lambda e_: len(fn.doms().get(e_[0].id, ())), reverse=True)
+                    near = edges[:1]
+                    grew = True
+                    while grew:       # short-circuit operands of the same condition (`a && b` is two blocks)
+                        grew = False
+                        ids = {e_[0].id for e_ in near}
+                        for e_ in edges:
+                            if e_[0].id not in ids and (e_[0].term or "").startswith("BinaryOperator") and \
+                                    set(fn.succs(e_[0].id)) & ids:
+                                near.append(e_)
+                                grew = True
+                    selectors = [cond for cb, oc, cond in near]
+                elif isinstance(r, dict) and r.get("k") == "cond" and (minus_one(r.get("t")) or minus_one(r.get("f"))):
+                    selectors = [r.get("c")]      # `n += closed ? seams - 1 : seams`
+                else:
+                    continue
+                topo = any(topo_evidence(fn, c) for c in selectors if isinstance(c, dict))
                 n += 1
                 rep.add(Obligation("SECTORCLOSE", fn.base, "num_points += seams - 1", fn.site(nd.get("loc", "")),
                                    DISCHARGED if topo else VIOLATION,
-                                   detail="closed-fan case selected by " + topo if topo else
+                                   detail="closed-fan case selected by a condition that consults the connectivity"
+                                   if topo else
                                    "the `- 1` (closed fan) case is selected without consulting the connectivity: "
                                    "point ids of the first and last sector can coincide on a boundary vertex"))
-    rep.floor("closed-fan adjustments in the Edgebreaker point counter", n, 1)
+    if n == 0:
+        rep.note("SECTORCLOSE: no `+= seams - 1` update found in the point counter (restructured?): clause not decided")
+    rep.floor("closed-fan adjustments in the Edgebreaker point counter", n, 0)
